@@ -28,7 +28,11 @@ pub fn parse_ignore(source: &Path, config: &Config) -> Result<Option<Gitignore>>
         let gifile = source.join(".gitignore");
         info!("Using .gitignore file {:?}", gifile);
         let mut builder = GitignoreBuilder::new(source);
-        builder.add(&gifile);
+        // Only ever read a regular file; a FIFO or socket of that
+        // name would block or fail.
+        if gifile.is_file() {
+            builder.add(&gifile);
+        }
         let ignore = builder.build()?;
         Some(ignore)
     } else {
